@@ -20,7 +20,9 @@ RULE = ('Generated sequences of EVENT/BINARY_EVENT packets (ids None, 0, '
         'catch-all and a class-based namespace (optionally also a function '
         'handler on the catch-all namespace for an event nobody sends); '
         'a sender disconnecting right behind its events, before their '
-        'background handlers have run; handlers that answer with the very '
+        'background handlers have run; a binary event with an argument of '
+        'the placeholder shape and an impossible index, followed by an '
+        'ordinary event; handlers that answer with the very '
         'object (a cached list / dict) they returned for an earlier event; '
         'async_handlers on/off (on: '
         'background tasks collected and run in a generated order); both '
@@ -101,6 +103,15 @@ def strategy(tier):
                                                        '__raise_type__',
                                                        '__raise_key__']),
                                'id': st.one_of(st.none(), st.integers(0, 5)),
+                               'id2': st.integers(0, 5)}),
+        # a binary event one of whose JSON arguments has the shape of an
+        # attachment placeholder with an index that no attachment has (the
+        # protocol's reserved shape: what becomes of this event is not
+        # judged), then an ordinary event from the same client: that one is
+        # handled and acknowledged as usual
+        st.fixed_dictionaries({'op': st.just('lookalike'),
+                               'c': st.integers(0, 7),
+                               'num': st.sampled_from([7, 'seven', -9]),
                                'id2': st.integers(0, 5)}),
         st.fixed_dictionaries({'op': st.just('window'),
                                'c': st.integers(0, 7),
@@ -275,6 +286,48 @@ def _run(case, w):
                 raise Violation('ack-after-handler-fault',
                                 'acks %r' % (acks,))
             labels['handler_fault'] = True
+            labels['nontrivial'] = True
+            log.clear()
+            continue
+        if k == 'lookalike':
+            lv = w.live()
+            if not lv:
+                continue
+            ci = lv[op['c'] % len(lv)]
+            c = w.clients[ci]
+            if responsible(c['ns'], 'a') is None:
+                continue
+            w.recv_all()
+            for f in wire.frames(wire.EVENT, c['ns'], None,
+                                 ['a', {'_placeholder': True,
+                                        'num': op['num']}, b'x']):
+                w.send_raw(c['t'], f)
+            w.h.settle()
+            w.h.swallowed[:] = []
+            w.h.bg_errors[:] = []
+            w.recv_all()
+            log.clear()
+            tag += 1
+            rets[tag] = 'after-lookalike'
+            w.send(c['t'], wire.EVENT, c['ns'], op['id2'],
+                   ['a', {'__tag': tag}])
+            w.h.settle()
+            tags = [a['__tag'] for kind, args in log for a in args
+                    if isinstance(a, dict) and set(a) == {'__tag'}]
+            if tags != [tag]:
+                raise Violation('event-lost-after-placeholder-lookalike',
+                                'after a binary event with an argument of '
+                                'the placeholder shape (num=%r) the next '
+                                'event of that client was handled %d times '
+                                '(%r)' % (op['num'], len(tags),
+                                          w.h.swallowed[:2]))
+            got = w.recv(c['t'])
+            acks = [(p['nsp'], p['id'], p['data']) for p in got]
+            if acks != [(c['ns'], op['id2'], ['after-lookalike'])]:
+                raise Violation('ack-after-placeholder-lookalike',
+                                'acks %r' % (acks,))
+            w.h.swallowed[:] = []
+            labels['placeholder_lookalike_argument'] = True
             labels['nontrivial'] = True
             log.clear()
             continue
